@@ -296,3 +296,23 @@ func C12StalledReader() {
 	sym.Reach("stalled-reader-probed")
 	v.probe("after-stalled-reader")
 }
+
+// C12TraceThenSubscribe: the generic object's tracing feature, in both orders: a client enables traces
+// (action 85) and subscribes to the trace signal (0x56), then a traced call is made: the object keeps
+// answering everybody.
+func C12TraceThenSubscribe() {
+	v := newZZVictim(0)
+	enable := zzFrame(net.Call, v.sid, 1, 85, 60, []byte{1})
+	subscribe := zzFrame(net.Call, v.sid, 1, 0, 61, zzRegisterPayload(1, 0x56, sym.U64("trace-user-id")))
+	if sym.Bool("enable-traces-first") {
+		zzRoundTrip(v.hostile, enable)
+		zzRoundTrip(v.hostile, subscribe)
+	} else {
+		zzRoundTrip(v.hostile, subscribe)
+		zzRoundTrip(v.hostile, enable)
+	}
+	// a traced call from the hostile connection itself
+	zzRoundTrip(v.hostile, zzFrame(net.Call, v.sid, 1, 1000, 62, nil))
+	v.probe("after-trace-subscription")
+	sym.Reach("trace-done")
+}
